@@ -170,9 +170,13 @@ where
             .map(|handle| handle.ckb_header_map_limit_memory_duration.start_timer());
 
         if let Some(values) = self.memory.front_n(self.memory_limit) {
+            #[cfg(ckb_verif)]
+            ckb_util::verif::point("header_map::after_front_n");
             tokio::task::block_in_place(|| {
                 self.backend.insert_batch(&values);
             });
+            #[cfg(ckb_verif)]
+            ckb_util::verif::point("header_map::after_insert_batch");
 
             // If IBD is not finished, don't shrink memory map
             let allow_shrink_to_fit = self.ibd_finished.load(Ordering::Acquire);
